@@ -1049,6 +1049,13 @@ def gen_pair_C13(R):
             sc["script"] = [[r for r in rs if r["acts"]] for rs in sc["script"]]
     else:
         without["script"][x] = []
+        if "C" in base["handlers"] and R.random() < 0.4:
+            # a lossy medium with the generator seeded identically in both runs: the draws are one per copy, in or out of
+            # range, so what the silent node does (moving into or out of somebody's range included) shifts nobody's draws
+            fail = R.choice([0.3, 0.5, 0.8])
+            for sc in (with_, without):
+                sc["med"] = (sc["med"][0], sc["med"][1], fail)
+            mode = "silent-lossy"
     return with_, without, x, mode
 
 
@@ -1090,13 +1097,46 @@ def gen_pair_C13_coincide(R):
     return with_, without, x, "silent-coinciding"
 
 
+def gen_pair_C13_crossing(R):
+    """lossy medium, generator seeded identically: the silent node flies into (or out of) the range of nodes that keep
+    broadcasting; its own node-scoped requests are the only difference between the two runs"""
+    nn = R.randint(3, 4)
+    x = R.randrange(nn)
+    rng = R.choice([15.0, 20.0, 30.0])
+    inward = R.random() < 0.6
+    nodes, script = [], []
+    for i in range(nn):
+        if i == x:
+            far = (rng * R.choice([1.5, 2.0, 3.0]), R.choice([0.0, 3.0]), 0.0)
+            nodes.append({"pos": far if inward else (R.uniform(0, 4), R.uniform(0, 4), 0.0), "ty": 0})
+            script.append([])
+        else:
+            nodes.append({"pos": (R.uniform(0, 6), R.uniform(0, 6), 0.0), "ty": 0})
+            per = R.choice([0.5, 0.75, 1.0])
+            script.append([{"trig": ("init",), "nth": None, "acts": [("settimer", 0, "abs", per)]},
+                           {"trig": ("timer", 0), "nth": None, "acts": [("bcast", 100 * i + 1), ("settimer", 0, "rel", per)]}])
+    base = {"handlers": R.sample(["T", "C", "M"], 3), "nodes": nodes, "med": (rng, R.choice([0.0, 0.0, 0.25]), R.choice([0.3, 0.5, 0.7])),
+            "mob": (R.choice([0.5, 0.25, 1.0]), R.choice([10.0, 20.0]), (0.0, 0.0, 0.0)), "asserts": [], "seed": R.randrange(1000),
+            "dur": R.choice([6.0, 8.0]), "maxit": None, "drv": ("run",), "script": script}
+    tgt = (R.uniform(0, 4), R.uniform(0, 4), 0.0) if inward else (rng * 3.0, 0.0, 0.0)
+    xr = [{"trig": ("init",), "nth": None, "acts": [("goto",) + tgt] + ([("speed", R.choice([5.0, 15.0]))] if R.random() < 0.5 else [])}]
+    if R.random() < 0.5:
+        xr.append({"trig": ("telem",), "nth": R.randrange(2, 8), "acts": [("range", R.choice([0.0, 5.0, 100.0]))]})
+    with_ = copy.deepcopy(base)
+    with_["script"][x] = xr
+    without = copy.deepcopy(base)
+    return with_, without, x, "silent-crossing-lossy"
+
+
 def check_C13(chk, R, S):
     chk.rule = ("paired runs: a scenario with and without a sequence of node-scoped requests (set/cancel timer, goto, "
                 "speed, range) by a silent existing node or by one additional node; the other nodes' callbacks, times, "
                 "payloads, positions and request outcomes must be identical in both runs, and both must equal the model; a quarter of "
-                "the pairs make the silent node's requests coincide (same timer names, same due instants) with the others' own")
+                "the pairs make the silent node's requests coincide (same timer names, same due instants) with the others' own; "
+                "lossy media with the generator seeded identically, the silent node flying into / out of the range of broadcasting nodes")
     run_corpus(chk, [])
-    pairs = [gen_pair_C13(R) for _ in range(S["sims"] * 3)] + [gen_pair_C13_coincide(R) for _ in range(S["sims"])]
+    pairs = [gen_pair_C13(R) for _ in range(S["sims"] * 3)] + [gen_pair_C13_coincide(R) for _ in range(S["sims"])] + \
+            [gen_pair_C13_crossing(R) for _ in range(max(20, S["sims"] // 5))]
     ra = corr.corr_sims([p[0] for p in pairs])
     rb = corr.corr_sims([p[1] for p in pairs])
     for (w, wo, x, mode), a, b in zip(pairs, ra, rb):
@@ -1652,7 +1692,16 @@ def gen_interop_case(R, with_cancel=False):
     for cb in cbs:
         if R.random() < 0.3:
             cb["tracks"] = [(R.randrange(5), R.randrange(100)) for _ in range(R.randint(1, 3))]
-    return {"nid": nid, "ty": R.choice([0, 1, 2]), "rules": rules, "cbs": cbs, "id_first": R.random() < 0.5}
+    case = {"nid": nid, "ty": R.choice([0, 1, 2]), "rules": rules, "cbs": cbs, "id_first": R.random() < 0.5}
+    if R.random() < 0.35:
+        # a plugin switched on in the middle of the session (from inside a callback, after callbacks of the kind it
+        # hooks were already delivered): from then on its handler issues one more request per callback of that kind
+        for _ in range(R.choice([1, 1, 2])):
+            j = R.randrange(len(cbs) - 1)
+            if "install" not in cbs[j]:
+                cbs[j]["install"] = (R.choice(["timer", "packet", "telem", "telem"]),
+                                     R.choice([("send", 900 + j, (nid + 1) % 4), ("bcast", 900 + j), ("speed", 2.5)]))
+    return case
 
 
 def check_C14(chk, R, S):
